@@ -302,6 +302,26 @@ def make_methods(log: Log, is_async: bool) -> Dict[str, Callable[..., Any]]:
 
     fac['window'] = window
 
+    import datetime as _dt
+    import decimal as _dec
+
+    _MISSING = object()
+
+    def odd_defaults(a, opt=_MISSING, when=_dt.date(2020, 1, 2), amount=_dec.Decimal('1.5'), kind=_dt.timezone.utc):
+        # defaults that are not JSON values (a sentinel, a date, a Decimal): they never travel, whatever happens to a call
+        log.calls.append(('odd_defaults', (a,), {}))
+        return ['odd_defaults', a, opt is _MISSING]
+
+    fac['odd_defaults'] = odd_defaults
+
+    def tc_only(a, b=0):
+        log.calls.append(('tc_only', (a, b), {}))
+        return ['tc_only', a, b]
+
+    # annotations that exist for the type checker only (`if TYPE_CHECKING: from x import T`): binding never needs them
+    tc_only.__annotations__ = {'a': 'Xq9OnlyForTheTypeChecker', 'b': 'typing.Optional[Xq9AlsoMissing]', 'return': 'Xq9Result'}
+    fac['tc_only'] = tc_only
+
     def mutate(lst, d=None):
         # works on the values it was handed, in place (they belong to this request alone)
         log.calls.append(('mutate', (list(lst) if isinstance(lst, list) else lst, dict(d) if isinstance(d, dict) else d), {}))
@@ -328,6 +348,14 @@ def make_methods(log: Log, is_async: bool) -> Dict[str, Callable[..., Any]]:
     # (this module postpones its annotations: the real annotation object is attached by hand)
     pd_pos.__annotations__ = {'n': _t.Annotated[int, _pd.Field(gt=0)]}
     fac['pd_pos'] = pd_validator.validate(pd_pos)
+
+    def pd_strip(s):
+        log.calls.append(('pd_strip', (s,), {}))
+        return ['pd_strip', s]
+
+    # custom validator code that raises something else than ValueError for some inputs (str.strip on a number: TypeError)
+    pd_strip.__annotations__ = {'s': _t.Annotated[str, _pd.BeforeValidator(str.strip)]}
+    fac['pd_strip'] = pd_validator.validate(pd_strip)
 
     # explicitly registered names may start with an underscore (the underscore rule concerns view members only)
     def _under(a=0):
@@ -429,7 +457,33 @@ def make_view(log: Log, is_async: bool):
             log.calls.append(('view._hidden', (), {}))
             return 'hidden'
 
+        @classmethod
+        def cm(cls, a, b=0):
+            log.calls.append(('view.cm', (a, b), {}))
+            return ['cm', cls.__name__, a, b]
+
+        @staticmethod
+        def sm(a, b=0):
+            log.calls.append(('view.sm', (a, b), {}))
+            return ['sm', a, b]
+
     return ProbeView
+
+
+def make_counter_view(log: Log, is_async: bool):
+    class CounterView(pjrpc.server.ViewMixin):
+        """registered WITHOUT a context; keeps state on the instance: every request gets its own instance"""
+
+        def __init__(self):
+            super().__init__()
+            self.n = 0
+
+        def bump(self, by=1):
+            log.calls.append(('cnt.bump', (by,), {}))
+            self.n += by if isinstance(by, int) and not isinstance(by, bool) else 1
+            return ['bump', self.n]
+
+    return CounterView
 
 
 def make_broken_view(log: Log, is_async: bool):
@@ -448,7 +502,8 @@ def make_broken_view(log: Log, is_async: bool):
 
 
 METHOD_NAMES = ('js_checked', 'js_loose', 'slowfail', 'byid', 'wrapped', 'whoami', 'ctxp', 'slow', 'fac1', 'fac2', 'ok', 'noargs', 'echo', 'kwonly', 'rpcerr', 'typed', 'boom', 'ctxm', 'view.vm', 'typedctor', 'raiselib', 'pd_pos', '_under',
-                'ns._dotted', 'cowrapped', 'js_draft4', 'window', 'mutate', 'broken.vm')
+                'ns._dotted', 'cowrapped', 'js_draft4', 'window', 'mutate', 'broken.vm', 'odd_defaults', 'tc_only',
+                'pd_strip', 'view.cm', 'view.sm', 'cnt.bump')
 
 
 def build_registry(log: Log, coroutines: bool) -> 'pjrpc.server.MethodRegistry':
@@ -463,6 +518,7 @@ def build_registry(log: Log, coroutines: bool) -> 'pjrpc.server.MethodRegistry':
             registry.add(fn, name)
     registry.view(make_view(log, coroutines), context='context', prefix='view')
     registry.view(make_broken_view(log, coroutines), context='context', prefix='broken')
+    registry.view(make_counter_view(log, coroutines), prefix='cnt')
     return registry
 
 
